@@ -179,6 +179,19 @@ def run(tier: str) -> int:
         for d in reps:
             first_of_year.setdefault(d.year, d)
         reps = sorted(set(first_of_year.values()) | set(rnd.sample(reps, min(25, len(reps)))))
+    # the first day of every distinct default-target graph (the tables the kernel-decided obligation
+    # `all_graphs_ok` ranges over): a graph that is not acceptable is then looked at on the real system, too
+    import emit_more
+    graph_days = []
+    for key, g in emit_more.default_graphs().items():
+        if key[0] == "error":
+            for date in g:
+                r.hit({"kind": "graph-cannot-be-built", "exc": key[1].split(":")[0]},
+                      f"the dependency graph of the default targets cannot be built at {date}: {key[1]}", {"date": date})
+        else:
+            graph_days.append(D.fromisoformat(g["dates"][0]))
+    r.extra["distinct_default_graphs"] = len(graph_days)
+    reps = sorted(set(reps) | set(graph_days))
     ords = [d.toordinal() for d in reps]
     envs = dict(zip(ords, paramsio.model_envs(ords)))
     reg = extract.registry()
